@@ -457,3 +457,199 @@ Proof.
   specialize (IH Hlt1' Hpres).
   destruct (perturb_inputs c blk inps (S iin) outps f0 df dxan s1) as [s2 rest]. cbn [fst] in *. congruence.
 Qed.
+
+(* ------------------------------------------------------------------ sensitivities are clean after reset *)
+Definition clean (o : option val) : Prop :=
+  match o with None => True | Some v => Forall (fun a => a = k0) (v_dat v) end.
+
+Lemma put_se_same i v s : (i < length s)%nat -> se (getsig (put_se i v s) i) = v.
+Proof. intros H. unfold put_se. rewrite getsig_upd_eq by exact H. reflexivity. Qed.
+Lemma put_se_other i v s j : i <> j -> getsig (put_se i v s) j = getsig s j.
+Proof. intros H. unfold put_se. apply getsig_upd_neq; exact H. Qed.
+Lemma getsig_oob (s : store) i : (length s <= i)%nat -> getsig s i = sig0.
+Proof. intros H. unfold getsig. apply nth_overflow; exact H. Qed.
+
+Lemma se_in_range (s : store) i v : se (getsig s i) = Some v -> (i < length s)%nat.
+Proof.
+  intros H. destruct (Nat.lt_ge_cases i (length s)) as [Hlt|Hge]; [exact Hlt|].
+  rewrite getsig_oob in H by exact Hge. discriminate.
+Qed.
+
+Lemma zeros_clean v : clean (Some (zeros_like v)).
+Proof. cbn. apply Forall_forall. intros a Ha. apply in_map_iff in Ha as (x & Hx & _). auto. Qed.
+
+Lemma scatter_zeros_clean ix : forall d n, Forall (fun a => a = k0) d -> Forall (fun a => a = k0) (scatter d ix (repeat k0 n)).
+Proof.
+  induction ix as [|i ix IH]; intros d [|n] H; cbn; auto. apply IH.
+  clear IH. revert i. induction H as [|x d Hx Hd IHd]; intros [|i]; cbn; constructor; auto.
+Qed.
+
+(* reset of a Signal leaves it clean; no reset ever makes a clean sensitivity dirty *)
+Lemma reset_sig_clean_root r s : s_slice r = None -> clean (se (getsig (reset_sig r s) (s_root r))).
+Proof.
+  intros Hs. unfold reset_sig. rewrite Hs. destruct (se (getsig s (s_root r))) as [c|] eqn:E; [|rewrite E; exact I].
+  pose proof (se_in_range _ _ _ E) as Hlt.
+  destruct (keep (getsig s (s_root r))); rewrite put_se_same by exact Hlt; [apply zeros_clean|exact I].
+Qed.
+
+Lemma reset_sig_clean_pres r s j : clean (se (getsig s j)) -> clean (se (getsig (reset_sig r s) j)).
+Proof.
+  intros Hc. unfold reset_sig.
+  destruct (Nat.eq_dec (s_root r) j) as [Heq|Hne].
+  2:{ destruct (s_slice r) as [[ix shp]|]; destruct (se (getsig s (s_root r))); try exact Hc;
+      try (destruct (keep (getsig s (s_root r)))); rewrite put_se_other by exact Hne; exact Hc. }
+  subst j. destruct (se (getsig s (s_root r))) as [c|] eqn:E.
+  2:{ destruct (s_slice r) as [[ix shp]|]; rewrite E; exact I. }
+  pose proof (se_in_range _ _ _ E) as Hlt.
+  destruct (s_slice r) as [[ix shp]|].
+  - rewrite put_se_same by exact Hlt. cbn. cbn in Hc. apply scatter_zeros_clean. exact Hc.
+  - destruct (keep (getsig s (s_root r))); rewrite put_se_same by exact Hlt; [apply zeros_clean|exact I].
+Qed.
+
+Definition resets (L : list sref) (s : store) : store := fold_left (fun s r => reset_sig r s) L s.
+
+Lemma resets_clean_pres L : forall s j, clean (se (getsig s j)) -> clean (se (getsig (resets L s) j)).
+Proof.
+  unfold resets. induction L as [|r L IH]; intros s j H; cbn; [exact H|]. apply IH. apply reset_sig_clean_pres; exact H.
+Qed.
+
+Lemma resets_clean L : forall s r, In r L -> s_slice r = None -> clean (se (getsig (resets L s) (s_root r))).
+Proof.
+  unfold resets. induction L as [|r0 L IH]; intros s r Hin Hs; [destruct Hin|]. cbn.
+  destruct Hin as [->|Hin]; [|apply IH; assumption].
+  apply (resets_clean_pres L). apply reset_sig_clean_root; exact Hs.
+Qed.
+
+Definition reset_refs (n : net) : list sref := flat_map (fun m => m_out m ++ m_in m) (rev n).
+
+Lemma n_reset_resets n s : n_reset n s = resets (reset_refs n) s.
+Proof.
+  unfold n_reset, reset_refs, resets. generalize (rev n) as l. intros l. revert s.
+  induction l as [|m l IH]; intros s; cbn; [reflexivity|].
+  rewrite fold_left_app. rewrite <- IH. unfold m_reset. rewrite fold_left_app. reflexivity.
+Qed.
+
+(* every Signal that is (directly) an input or output of a module of the sub-network is clean after blk.reset() *)
+Definition direct_sig (n : net) (j : nat) : Prop :=
+  exists m r, In m n /\ In r (m_out m ++ m_in m) /\ s_root r = j /\ s_slice r = None.
+
+Lemma n_reset_clean n s j : direct_sig n j -> clean (se (getsig (n_reset n s) j)).
+Proof.
+  intros (m & r & Hm & Hr & <- & Hs). rewrite n_reset_resets. apply resets_clean; [|exact Hs].
+  unfold reset_refs. apply in_flat_map. exists m. split; [|exact Hr]. apply in_rev in Hm. exact Hm.
+Qed.
+
+Lemma n_reset_clean_pres n s j : clean (se (getsig s j)) -> clean (se (getsig (n_reset n s) j)).
+Proof. intros H. rewrite n_reset_resets. apply resets_clean_pres; exact H. Qed.
+
+(* the analytical pass ends every iteration with blk.reset() *)
+Lemma analytical_clean c blk inps j : direct_sig blk j -> forall outps iout rand s,
+  clean (se (getsig s j)) -> clean (se (getsig (a_store (analytical c blk inps outps iout rand s)) j)).
+Proof.
+  intros Hd. induction outps as [|so outps IH]; intros iout rand s Hc; cbn [analytical]; [exact Hc|].
+  destruct (get_state so s) as [output|]; [|cbn [a_store]; apply IH; exact Hc].
+  destruct (make_seed c iout output rand) as [df rand']. cbn [a_store]. apply IH. apply n_reset_clean; exact Hd.
+Qed.
+
+(* ------------------------------------------------------------------ sub-network selection *)
+Definition mod0 : module := {| m_in := []; m_out := []; m_f := fun _ => []; m_vjp := fun _ _ => [] |}.
+
+Lemma find_first_spec inps : forall n i0 i1, find_first inps n i0 = Some i1 ->
+  (i0 <= i1 < i0 + length n)%nat /\ overlap inps (m_in (nth (i1 - i0) n mod0)) = true /\
+  forall j, (j < i1 - i0)%nat -> overlap inps (m_in (nth j n mod0)) = false.
+Proof.
+  induction n as [|m n IH]; intros i0 i1 H; cbn in H; [discriminate|].
+  destruct (overlap inps (m_in m)) eqn:E.
+  - inversion H; subst. rewrite Nat.sub_diag. cbn. split; [lia|split; [exact E|]]. intros j Hj; lia.
+  - apply IH in H as (A & B & D). cbn [length]. split; [lia|].
+    replace (i1 - i0)%nat with (S (i1 - S i0)) by lia. cbn [nth]. split; [exact B|].
+    intros [|j] Hj; [exact E|]. apply D. lia.
+Qed.
+
+Lemma find_last_spec outps : forall n i0 acc i2, find_last outps n i0 acc = Some i2 ->
+  (acc = Some i2 /\ forall j, (j < length n)%nat -> overlap outps (m_out (nth j n mod0)) = false) \/
+  ((i0 <= i2 < i0 + length n)%nat /\ overlap outps (m_out (nth (i2 - i0) n mod0)) = true /\
+   forall j, (i2 - i0 < j < length n)%nat -> overlap outps (m_out (nth j n mod0)) = false).
+Proof.
+  induction n as [|m n IH]; intros i0 acc i2 H; cbn in H.
+  - left. split; [exact H|]. intros j Hj; cbn in Hj; lia.
+  - apply IH in H as [[A B]|(A & B & D)].
+    + destruct (overlap outps (m_out m)) eqn:E.
+      * right. inversion A; subst. rewrite Nat.sub_diag. cbn. split; [lia|split; [exact E|]].
+        intros [|j] Hj; [lia|]. apply B. lia.
+      * left. split; [exact A|]. intros [|j] Hj; [exact E|]. apply B. cbn in Hj. lia.
+    + right. cbn [length]. split; [lia|]. replace (i2 - i0)%nat with (S (i2 - S i0)) by lia. cbn [nth].
+      split; [exact B|]. intros [|j] Hj; [lia|]. apply D. lia.
+Qed.
+
+(* finite_difference on a Network = finite_difference on the selected sub-network, started from the store in which
+   the modules before it have been evaluated once *)
+Theorem fd_network_selection c mods inps outps s i1 i2 :
+  find_first inps mods 0 = Some i1 -> find_last outps mods 0 None = Some i2 ->
+  finite_difference c true mods inps outps s =
+  finite_difference c false (firstn (S i2 - i1) (skipn i1 mods)) inps outps (n_response (firstn i1 mods) s).
+Proof. intros H1 H2. unfold finite_difference. rewrite H1, H2. reflexivity. Qed.
+
+Theorem fd_network_errors c mods inps outps s :
+  (find_first inps mods 0 = None -> finite_difference c true mods inps outps s = inl ENoInput) /\
+  (forall i1, find_first inps mods 0 = Some i1 -> find_last outps mods 0 None = None ->
+              finite_difference c true mods inps outps s = inl ENoOutput).
+Proof.
+  split; [intros H|intros i1 H1 H2]; unfold finite_difference; [rewrite H|rewrite H1, H2]; reflexivity.
+Qed.
+
+Lemma nth_firstn_below {A} (l : list A) n j d : (j < n)%nat -> nth j (firstn n l) d = nth j l d.
+Proof.
+  revert l j; induction n as [|n IH]; intros [|x l] [|j] H; cbn; auto; try lia. apply IH. lia.
+Qed.
+
+Lemma nth_selected {A} (l : list A) i1 n j d : (j < n)%nat -> (i1 + j < length l)%nat ->
+  nth j (firstn n (skipn i1 l)) d = nth (i1 + j) l d.
+Proof.
+  intros Hj Hl. rewrite nth_firstn_below by exact Hj.
+  revert l Hl. induction i1 as [|i1 IH]; intros l Hl; [reflexivity|].
+  destruct l as [|x l]; cbn in *; [lia|]. apply IH. lia.
+Qed.
+
+(* ------------------------------------------------------------------ the routine as a whole (single module or the
+   selected sub-network) *)
+Theorem fd_result c blk inps outps s res :
+  finite_difference c false blk inps outps s = inr res ->
+  let s1 := n_response blk (n_reset blk s) in
+  let a := analytical c blk inps outps 0 (c_rand c) s1 in
+  res = {| f_reports := snd (perturb_inputs c blk inps 0 outps (a_f0 a) (a_df a) (a_dx a) (a_store a));
+           f_store := fst (perturb_inputs c blk inps 0 outps (a_f0 a) (a_df a) (a_dx a) (a_store a));
+           f_seeds := a_df a |}.
+Proof.
+  intros H. cbn zeta. unfold finite_difference in H. cbn [n_response fold_left] in H.
+  match type of H with context [perturb_inputs ?a ?b ?c0 ?d ?e ?f ?g ?h ?i] =>
+    destruct (perturb_inputs a b c0 d e f g h i) as [s2 reps] end.
+  inversion H; subst. reflexivity.
+Qed.
+
+(* no sensitivity is left set: every Signal of the sub-network holds None or zeros after the call *)
+Theorem fd_leaves_clean c blk inps outps s res j :
+  finite_difference c false blk inps outps s = inr res -> direct_sig blk j ->
+  clean (se (getsig (f_store res) j)).
+Proof.
+  intros H Hd. rewrite (fd_result _ _ _ _ _ _ H). cbn [f_store].
+  set (s1 := n_response blk (n_reset blk s)). set (a := analytical c blk inps outps 0 (c_rand c) s1).
+  destruct (perturb_inputs_sens_same c blk outps (a_f0 a) (a_df a) (a_dx a) inps 0%nat (a_store a)) as [_ F].
+  destruct (F j) as [F1 _]. rewrite F1.
+  unfold a. apply analytical_clean; [exact Hd|].
+  unfold s1. destruct (n_response_sens_same blk (n_reset blk s)) as [_ G]. destruct (G j) as [G1 _]. rewrite G1.
+  apply n_reset_clean; exact Hd.
+Qed.
+
+(* the states: every root the sub-network does not write is restored to what it held after the initial response,
+   which for such a root is what it held before the call *)
+Lemma set_sens_st r x s j : st (getsig (set_sens r x s) j) = st (getsig s j).
+Proof.
+  assert (P : forall i v s0, st (getsig (put_se i v s0) j) = st (getsig s0 j)).
+  { intros i v s0. unfold put_se. destruct (Nat.eq_dec i j) as [<-|Hne]; [|rewrite getsig_upd_neq by exact Hne; reflexivity].
+    destruct (Nat.lt_ge_cases i (length s0)) as [Hlt|Hge]; [rewrite getsig_upd_eq by exact Hlt; reflexivity|].
+    rewrite upd_oob by exact Hge. reflexivity. }
+  unfold set_sens. destruct (s_slice r) as [[ix shp]|]; [|apply P].
+  destruct (se (getsig s (s_root r))), x; try reflexivity;
+    destruct (base_sens_or_zero (getsig s (s_root r))); try reflexivity; apply P.
+Qed.
